@@ -2,6 +2,14 @@
 """Regenerates MANIFEST.json from the table below (kept as code so that the manifest is always valid)."""
 import json, subprocess
 CLAIMED = {
+ "C14": dict(technique="property-based testing: generated sends for every wallet version against a recording blockchain double; independent signature verification (reference hasher + crypto/ed25519), bit-flip sweeps, differential decode against a reference body layout writer/reader",
+             text="For V3R1..V5R1 and HighLoadV2R2, keys, seqno/expiry over the full uint32 range, 0..limit(+1) messages of every kind and all build paths, the captured external message must verify under the wallet key only, stop verifying for flipped bits of the signed body and signature (exhaustive for small bodies), decode (by the reference and by tongo's decoders) to the requested ids, seqno, expiry, messages and modes in order, equal the cell the reference writes from the documented layout, and limit+1 messages must be refused without sending. Sampling; exhaustive bit flips for small bodies.",
+             note="Trusted: harness/internal/walletref (layouts from contract documentation; code cells taken from tongo's table as data and anchored to ten published code hashes), R2 hasher, crypto/ed25519.",
+             design="DESIGN.md section 4 C14"),
+ "C15": dict(technique="property-based testing: address derivation against an independent state-init reference for all versions (workchains enumerated), model-based send against a scripted blockchain double with generated account states and poll histories",
+             text="Addresses for all twelve constructible versions, keys, sub-wallet/network ids and every workchain -128..127 must equal the reference hash of the reference state-init through every API and differ when exactly one input differs; sends against generated account states must take the on-chain seqno / attach the init exactly as the property says and propagate errors; confirmation is judged from the recorded poll history with real-time slack; seed phrases are compared with an independent derivation. Sampling; workchains enumerated.",
+             note="Trusted: harness/internal/walletref, harness/internal/wtest (blockchain double). Real-time waits of 100-300 ms with a 2 s slack.",
+             design="DESIGN.md section 4 C15"),
  "C13": dict(technique="exhaustive enumeration of the selection grid plus property-based concurrency testing (rapid-drawn real-time schedules under the race detector) through the verif hook",
              text="updateBest is enumerated over all pools of 1..3 (quick) / 1..4 (thorough, ~2x10^8 configurations) members x 56 member states x both strategies x previous choice x two id assignments against an oracle written from the property text; drawn real-time schedules of head bursts, steady sub-target traffic, waiters with timeouts and cancels, best-connection switches and BestMasterchainClient callers run under -race with GOMAXPROCS 1/2/16, followed by a sentinel probe that the pool is not blocked; an enumerated burst stress targets the notify/unsubscribe lock interplay. Liveness is judged as safety with generous real-time slack and a scheduler-lag guard. Exhaustive for the grid; sampling of interleavings for schedules.",
              note="Hook: liteapi/pool/verif_hooks.go (build tag verif, add-only). Trusted: the fake connection type and the schedule oracle of harness/c13. A violation that needs one specific interleaving may stay unseen and may not replay; the full history and a goroutine dump are put in the replay file.",
